@@ -10,7 +10,12 @@ package c18
 
 import (
 	"fmt"
+	"runtime"
+	"runtime/debug"
 	"strings"
+	"sync/atomic"
+	"syscall"
+	"time"
 
 	"github.com/johnkerl/miller/v6/pkg/cli"
 	"github.com/johnkerl/miller/v6/pkg/dsl/cst"
@@ -282,21 +287,26 @@ func ladders() []ladder {
 		{"dsl-json-decode-nest", big, func(d int) ([]string, string) { return endProg(`print depth(json_decode("` + rep("[", d) + rep("]", d) + `"))`), "" }},
 		{"dsl-splitax-wide", big, func(d int) ([]string, string) { return endProg(`print length(splitax("` + rep("a,", d) + `", ","))`), "" }},
 		// ---- readers: nesting and size
-		{"json-array-nest", big, func(d int) ([]string, string) { return []string{"--ijson", "--ojson", "cat"}, `{"a":` + rep("[", d) + "1" + rep("]", d) + "}" }},
-		{"json-map-nest", big, func(d int) ([]string, string) { return []string{"--ijson", "--ojson", "cat"}, rep(`{"a":`, d) + "1" + rep("}", d) }},
-		{"json-array-unclosed", big, func(d int) ([]string, string) { return []string{"--ijson", "--ojson", "cat"}, `{"a":` + rep("[", d) }},
-		{"json-map-unclosed", big, func(d int) ([]string, string) { return []string{"--ijson", "--ojson", "cat"}, rep(`{"a":`, d) }},
-		{"json-top-array-nest", big, func(d int) ([]string, string) { return []string{"--ijson", "--ojson", "cat"}, rep("[", d) + rep("]", d) }},
-		{"json-closers-only", big, func(d int) ([]string, string) { return []string{"--ijson", "--ojson", "cat"}, rep("]", d) + rep("}", d) }},
+		{"json-array-nest", big, func(d int) ([]string, string) { return []string{"--ijson", "--ojsonl", "cat"}, `{"a":` + rep("[", d) + "1" + rep("]", d) + "}" }},
+		{"json-map-nest", big, func(d int) ([]string, string) { return []string{"--ijson", "--ojsonl", "cat"}, rep(`{"a":`, d) + "1" + rep("}", d) }},
+		{"json-array-unclosed", big, func(d int) ([]string, string) { return []string{"--ijson", "--ojsonl", "cat"}, `{"a":` + rep("[", d) }},
+		{"json-map-unclosed", big, func(d int) ([]string, string) { return []string{"--ijson", "--ojsonl", "cat"}, rep(`{"a":`, d) }},
+		{"json-writer-multiline-array-nest", big, func(d int) ([]string, string) { return []string{"--ijson", "--ojson", "cat"}, `{"a":` + rep("[", d) + "1" + rep("]", d) + "}" }},
+		{"json-writer-multiline-map-nest", big, func(d int) ([]string, string) { return []string{"--ijson", "--ojson", "cat"}, rep(`{"a":`, d) + "1" + rep("}", d) }},
+		{"json-reader-only-array-nest", 10000000, func(d int) ([]string, string) { return []string{"--ijson", "--ojson", "nothing"}, `{"a":` + rep("[", d) + "1" + rep("]", d) + "}" }},
+		{"json-reader-only-map-nest", 10000000, func(d int) ([]string, string) { return []string{"--ijson", "--ojson", "nothing"}, rep(`{"a":`, d) + "1" + rep("}", d) }},
+		{"yaml-reader-only-flow-nest", 10000000, func(d int) ([]string, string) { return []string{"--iyaml", "--ojson", "nothing"}, "a: " + rep("[", d) + "1" + rep("]", d) + "\n" }},
+		{"json-top-array-nest", big, func(d int) ([]string, string) { return []string{"--ijson", "--ojsonl", "cat"}, rep("[", d) + rep("]", d) }},
+		{"json-closers-only", big, func(d int) ([]string, string) { return []string{"--ijson", "--ojsonl", "cat"}, rep("]", d) + rep("}", d) }},
 		{"json-map-nest-to-csv", big, func(d int) ([]string, string) { return []string{"--ijson", "--ocsv", "cat"}, rep(`{"a":`, d) + "1" + rep("}", d) }},
 		{"json-map-nest-to-xtab", 100000, func(d int) ([]string, string) { return []string{"--ijson", "--oxtab", "cat"}, rep(`{"a":`, d) + "1" + rep("}", d) }},
 		{"json-array-nest-to-pprint", 100000, func(d int) ([]string, string) {
 			return []string{"--ijson", "--opprint", "cat"}, `{"a":` + rep("[", d) + "1" + rep("]", d) + "}"
 		}},
-		{"json-long-string", big, func(d int) ([]string, string) { return []string{"--ijson", "--ojson", "cat"}, `{"a":"` + rep("s", d*10) + `"}` }},
-		{"json-long-key", big, func(d int) ([]string, string) { return []string{"--ijson", "--ojson", "cat"}, `{"` + rep("k", d*10) + `":1}` }},
-		{"json-long-number", big, func(d int) ([]string, string) { return []string{"--ijson", "--ojson", "cat"}, `{"a":` + rep("7", d) + `}` }},
-		{"json-long-escapes", big, func(d int) ([]string, string) { return []string{"--ijson", "--ojson", "cat"}, `{"a":"` + rep(`\u00e9\\`, d) + `"}` }},
+		{"json-long-string", big, func(d int) ([]string, string) { return []string{"--ijson", "--ojsonl", "cat"}, `{"a":"` + rep("s", d*10) + `"}` }},
+		{"json-long-key", big, func(d int) ([]string, string) { return []string{"--ijson", "--ojsonl", "cat"}, `{"` + rep("k", d*10) + `":1}` }},
+		{"json-long-number", big, func(d int) ([]string, string) { return []string{"--ijson", "--ojsonl", "cat"}, `{"a":` + rep("7", d) + `}` }},
+		{"json-long-escapes", big, func(d int) ([]string, string) { return []string{"--ijson", "--ojsonl", "cat"}, `{"a":"` + rep(`\u00e9\\`, d) + `"}` }},
 		{"json-many-records", big, func(d int) ([]string, string) { return []string{"--ijson", "--ojson", "tac"}, rep(`{"a":1}`, d) }},
 		{"json-many-keys", 100000, func(d int) ([]string, string) {
 			var sb strings.Builder
@@ -305,22 +315,22 @@ func ladders() []ladder {
 				fmt.Fprintf(&sb, `"k%d":%d,`, i, i)
 			}
 			sb.WriteString(`"z":0}`)
-			return []string{"--ijson", "--ojson", "cat"}, sb.String()
+			return []string{"--ijson", "--ojsonl", "cat"}, sb.String()
 		}},
-		{"json-many-dup-keys", 100000, func(d int) ([]string, string) { return []string{"--ijson", "--ojson", "cat"}, "{" + rep(`"a":1,`, d) + `"a":2}` }},
-		{"json-whitespace", big, func(d int) ([]string, string) { return []string{"--ijson", "--ojson", "cat"}, rep(" \n\t", d) + `{"a":1}` + rep(" ", d) }},
-		{"jsonl-long-line", big, func(d int) ([]string, string) { return []string{"--ijsonl", "--ojson", "cat"}, `{"a":"` + rep("s", d*10) + `"}` + "\n" }},
-		{"yaml-flow-nest", big, func(d int) ([]string, string) { return []string{"--iyaml", "--ojson", "cat"}, "a: " + rep("[", d) + "1" + rep("]", d) + "\n" }},
-		{"yaml-flow-map-nest", big, func(d int) ([]string, string) { return []string{"--iyaml", "--ojson", "cat"}, rep("{a: ", d) + "1" + rep("}", d) + "\n" }},
-		{"yaml-flow-unclosed", big, func(d int) ([]string, string) { return []string{"--iyaml", "--ojson", "cat"}, "a: " + rep("[", d) + "\n" }},
-		{"yaml-dash-nest", big, func(d int) ([]string, string) { return []string{"--iyaml", "--ojson", "cat"}, "a:\n  " + rep("- ", d) + "1\n" }},
+		{"json-many-dup-keys", 100000, func(d int) ([]string, string) { return []string{"--ijson", "--ojsonl", "cat"}, "{" + rep(`"a":1,`, d) + `"a":2}` }},
+		{"json-whitespace", big, func(d int) ([]string, string) { return []string{"--ijson", "--ojsonl", "cat"}, rep(" \n\t", d) + `{"a":1}` + rep(" ", d) }},
+		{"jsonl-long-line", big, func(d int) ([]string, string) { return []string{"--ijsonl", "--ojsonl", "cat"}, `{"a":"` + rep("s", d*10) + `"}` + "\n" }},
+		{"yaml-flow-nest", big, func(d int) ([]string, string) { return []string{"--iyaml", "--ojsonl", "cat"}, "a: " + rep("[", d) + "1" + rep("]", d) + "\n" }},
+		{"yaml-flow-map-nest", big, func(d int) ([]string, string) { return []string{"--iyaml", "--ojsonl", "cat"}, rep("{a: ", d) + "1" + rep("}", d) + "\n" }},
+		{"yaml-flow-unclosed", big, func(d int) ([]string, string) { return []string{"--iyaml", "--ojsonl", "cat"}, "a: " + rep("[", d) + "\n" }},
+		{"yaml-dash-nest", big, func(d int) ([]string, string) { return []string{"--iyaml", "--ojsonl", "cat"}, "a:\n  " + rep("- ", d) + "1\n" }},
 		{"yaml-block-nest", 1000, func(d int) ([]string, string) {
 			var sb strings.Builder
 			for i := 0; i < d; i++ {
 				sb.WriteString(rep(" ", i) + "a:\n")
 			}
 			sb.WriteString(rep(" ", d) + "b: 1\n")
-			return []string{"--iyaml", "--ojson", "cat"}, sb.String()
+			return []string{"--iyaml", "--ojsonl", "cat"}, sb.String()
 		}},
 		{"yaml-alias-doubling", 24, func(d int) ([]string, string) {
 			// each level references the previous one twice: 2^d leaves from a d-line document
@@ -332,55 +342,55 @@ func ladders() []ladder {
 			return []string{"--iyaml", "--ojson", "put", "-q", `end{print "done"}`}, sb.String()
 		}},
 		{"yaml-many-docs", 100000, func(d int) ([]string, string) { return []string{"--iyaml", "--ojson", "tac"}, rep("---\na: 1\n", d) }},
-		{"yaml-long-scalar", big, func(d int) ([]string, string) { return []string{"--iyaml", "--ojson", "cat"}, "a: " + rep("s", d*10) + "\n" }},
-		{"csv-long-quoted-field", big, func(d int) ([]string, string) { return []string{"--icsv", "--ojson", "cat"}, "a\n\"" + rep("x", d*10) + "\"\n" }},
-		{"csv-long-unquoted-line", big, func(d int) ([]string, string) { return []string{"--icsv", "--ojson", "cat"}, "a\n" + rep("x", d*10) + "\n" }},
-		{"csv-unterminated-quote", big, func(d int) ([]string, string) { return []string{"--icsv", "--ojson", "cat"}, "a\n\"" + rep("x\n", d*5) }},
+		{"yaml-long-scalar", big, func(d int) ([]string, string) { return []string{"--iyaml", "--ojsonl", "cat"}, "a: " + rep("s", d*10) + "\n" }},
+		{"csv-long-quoted-field", big, func(d int) ([]string, string) { return []string{"--icsv", "--ojsonl", "cat"}, "a\n\"" + rep("x", d*10) + "\"\n" }},
+		{"csv-long-unquoted-line", big, func(d int) ([]string, string) { return []string{"--icsv", "--ojsonl", "cat"}, "a\n" + rep("x", d*10) + "\n" }},
+		{"csv-unterminated-quote", big, func(d int) ([]string, string) { return []string{"--icsv", "--ojsonl", "cat"}, "a\n\"" + rep("x\n", d*5) }},
 		{"csv-many-columns", 100000, func(d int) ([]string, string) {
 			var h, r strings.Builder
 			for i := 0; i < d; i++ {
 				fmt.Fprintf(&h, "c%d,", i)
 				r.WriteString("1,")
 			}
-			return []string{"--icsv", "--ojson", "cat"}, h.String() + "z\n" + r.String() + "1\n"
+			return []string{"--icsv", "--ojsonl", "cat"}, h.String() + "z\n" + r.String() + "1\n"
 		}},
-		{"csv-many-dup-columns", 10000, func(d int) ([]string, string) { return []string{"--icsv", "--ojson", "cat"}, rep("a,", d) + "a\n" + rep("1,", d) + "1\n" }},
-		{"csv-many-quotes", big, func(d int) ([]string, string) { return []string{"--icsv", "--ojson", "cat"}, "a\n\"" + rep(`""`, d) + "\"\n" }},
-		{"csv-many-blank-lines", big, func(d int) ([]string, string) { return []string{"--icsv", "--ojson", "cat"}, "a\n" + rep("\n", d) + "1\n" }},
+		{"csv-many-dup-columns", 10000, func(d int) ([]string, string) { return []string{"--icsv", "--ojsonl", "cat"}, rep("a,", d) + "a\n" + rep("1,", d) + "1\n" }},
+		{"csv-many-quotes", big, func(d int) ([]string, string) { return []string{"--icsv", "--ojsonl", "cat"}, "a\n\"" + rep(`""`, d) + "\"\n" }},
+		{"csv-many-blank-lines", big, func(d int) ([]string, string) { return []string{"--icsv", "--ojsonl", "cat"}, "a\n" + rep("\n", d) + "1\n" }},
 		{"csvlite-many-schema-changes", 100000, func(d int) ([]string, string) { return []string{"--icsvlite", "--ocsvlite", "cat"}, rep("a\n1\n\nb\n2\n\n", d) }},
-		{"csv-ragged-to-csv-unsparsify", 10000, func(d int) ([]string, string) {
+		{"csv-ragged-to-csv-unsparsify", 1000, func(d int) ([]string, string) {
 			var sb strings.Builder
 			for i := 0; i < d; i++ {
 				fmt.Fprintf(&sb, "k%d=%d\n", i, i)
 			}
 			return []string{"--idkvp", "--ocsv", "unsparsify"}, sb.String()
 		}},
-		{"tsv-long-line", big, func(d int) ([]string, string) { return []string{"--itsv", "--ojson", "cat"}, "a\n" + rep("x", d*10) + "\n" }},
-		{"tsv-many-escapes", big, func(d int) ([]string, string) { return []string{"--itsv", "--ojson", "cat"}, "a\n" + rep(`\t\n\\`, d) + `\` + "\n" }},
-		{"dkvp-long-line-no-newline", big, func(d int) ([]string, string) { return []string{"--idkvp", "--ojson", "cat"}, "a=" + rep("x", d*10) }},
+		{"tsv-long-line", big, func(d int) ([]string, string) { return []string{"--itsv", "--ojsonl", "cat"}, "a\n" + rep("x", d*10) + "\n" }},
+		{"tsv-many-escapes", big, func(d int) ([]string, string) { return []string{"--itsv", "--ojsonl", "cat"}, "a\n" + rep(`\t\n\\`, d) + `\` + "\n" }},
+		{"dkvp-long-line-no-newline", big, func(d int) ([]string, string) { return []string{"--idkvp", "--ojsonl", "cat"}, "a=" + rep("x", d*10) }},
 		{"dkvp-many-fields", 100000, func(d int) ([]string, string) {
 			var sb strings.Builder
 			for i := 0; i < d; i++ {
 				fmt.Fprintf(&sb, "k%d=%d,", i, i)
 			}
-			return []string{"--idkvp", "--ojson", "cat"}, sb.String() + "z=0\n"
+			return []string{"--idkvp", "--ojsonl", "cat"}, sb.String() + "z=0\n"
 		}},
-		{"dkvp-many-positional-fields", 100000, func(d int) ([]string, string) { return []string{"--idkvp", "--ojson", "cat"}, rep("v,", d) + "v\n" }},
-		{"dkvp-unflatten-deep", big, func(d int) ([]string, string) { return []string{"--idkvp", "--ojson", "cat"}, "a" + rep(".a", d) + "=1\n" }},
-		{"dkvp-unflatten-dots-only", big, func(d int) ([]string, string) { return []string{"--idkvp", "--ojson", "cat"}, rep(".", d) + "=1\n" }},
+		{"dkvp-many-positional-fields", 100000, func(d int) ([]string, string) { return []string{"--idkvp", "--ojsonl", "cat"}, rep("v,", d) + "v\n" }},
+		{"dkvp-unflatten-deep", big, func(d int) ([]string, string) { return []string{"--idkvp", "--ojsonl", "cat"}, "a" + rep(".a", d) + "=1\n" }},
+		{"dkvp-unflatten-dots-only", big, func(d int) ([]string, string) { return []string{"--idkvp", "--ojsonl", "cat"}, rep(".", d) + "=1\n" }},
 		{"dkvp-unflatten-wide-numeric", 100000, func(d int) ([]string, string) {
 			var sb strings.Builder
 			for i := d; i >= 1; i -= 1 + d/50 {
 				fmt.Fprintf(&sb, "a.%d=%d,", i, i)
 			}
-			return []string{"--idkvp", "--ojson", "cat"}, sb.String() + "z=0\n"
+			return []string{"--idkvp", "--ojsonl", "cat"}, sb.String() + "z=0\n"
 		}},
-		{"dkvp-many-equals", big, func(d int) ([]string, string) { return []string{"--idkvp", "--ojson", "cat"}, rep("=", d) + "\n" }},
-		{"dkvpx-long-quoted", big, func(d int) ([]string, string) { return []string{"-i", "dkvpx", "--ojson", "cat"}, `a="` + rep("x", d*10) + "\"\n" }},
-		{"dkvpx-unterminated-quote", big, func(d int) ([]string, string) { return []string{"-i", "dkvpx", "--ojson", "cat"}, `a="` + rep("x\n", d*5) }},
-		{"nidx-many-fields", 100000, func(d int) ([]string, string) { return []string{"--inidx", "--ifs", " ", "--ojson", "cat"}, rep("v ", d) + "\n" }},
-		{"nidx-many-spaces", big, func(d int) ([]string, string) { return []string{"--inidx", "--ifs", " ", "--ojson", "cat"}, "a" + rep(" ", d*10) + "b\n" }},
-		{"xtab-long-key", big, func(d int) ([]string, string) { return []string{"--ixtab", "--ojson", "cat"}, rep("k", d*10) + " 1\n" }},
+		{"dkvp-many-equals", big, func(d int) ([]string, string) { return []string{"--idkvp", "--ojsonl", "cat"}, rep("=", d) + "\n" }},
+		{"dkvpx-long-quoted", big, func(d int) ([]string, string) { return []string{"-i", "dkvpx", "--ojsonl", "cat"}, `a="` + rep("x", d*10) + "\"\n" }},
+		{"dkvpx-unterminated-quote", big, func(d int) ([]string, string) { return []string{"-i", "dkvpx", "--ojsonl", "cat"}, `a="` + rep("x\n", d*5) }},
+		{"nidx-many-fields", 100000, func(d int) ([]string, string) { return []string{"--inidx", "--ifs", " ", "--ojsonl", "cat"}, rep("v ", d) + "\n" }},
+		{"nidx-many-spaces", big, func(d int) ([]string, string) { return []string{"--inidx", "--ifs", " ", "--ojsonl", "cat"}, "a" + rep(" ", d*10) + "b\n" }},
+		{"xtab-long-key", big, func(d int) ([]string, string) { return []string{"--ixtab", "--ojsonl", "cat"}, rep("k", d*10) + " 1\n" }},
 		{"xtab-many-lines", 100000, func(d int) ([]string, string) {
 			var sb strings.Builder
 			for i := 0; i < d; i++ {
@@ -392,16 +402,16 @@ func ladders() []ladder {
 			return []string{"--ipprint", "--opprint", "--barred", "cat"}, rep("h ", d) + "\n" + rep("1 ", d) + "\n"
 		}},
 		{"pprint-barred-in-long-separator", big, func(d int) ([]string, string) {
-			return []string{"--ipprint", "--barred-input", "--ojson", "cat"}, "+" + rep("-", d*10) + "+\n| a |\n+" + rep("-+", d) + "\n| 1 |\n"
+			return []string{"--ipprint", "--barred-input", "--ojsonl", "cat"}, "+" + rep("-", d*10) + "+\n| a |\n+" + rep("-+", d) + "\n| 1 |\n"
 		}},
 		{"markdown-many-columns", 10000, func(d int) ([]string, string) {
-			return []string{"--imd", "--ojson", "cat"}, "|" + rep(" h |", d) + "\n|" + rep(" --- |", d) + "\n|" + rep(" 1 |", d) + "\n"
+			return []string{"--imd", "--ojsonl", "cat"}, "|" + rep(" h |", d) + "\n|" + rep(" --- |", d) + "\n|" + rep(" 1 |", d) + "\n"
 		}},
-		{"dcf-many-continuations", big, func(d int) ([]string, string) { return []string{"--idcf", "--ojson", "cat"}, "Description: x\n" + rep(" more\n", d) }},
-		{"recutils-many-continuations", big, func(d int) ([]string, string) { return []string{"--irecutils", "--ojson", "cat"}, "a: x\n" + rep("+ more\n", d) }},
-		{"many-blank-records", big, func(d int) ([]string, string) { return []string{"--ixtab", "--ojson", "cat"}, rep("\n", d) + "a 1\n" + rep("\n", d) }},
-		{"gz-truncated-stream", 1000, func(d int) ([]string, string) { return []string{"--icsv", "--gzin", "--ojson", "cat"}, "\x1f\x8b\x08\x00\x00\x00\x00\x00\x00\x03" + rep("\x00", d) }},
-		{"nul-bytes", big, func(d int) ([]string, string) { return []string{"--icsv", "--ojson", "cat"}, "a\n" + rep("\x00", d) + "\n" }},
+		{"dcf-many-continuations", big, func(d int) ([]string, string) { return []string{"--idcf", "--ojsonl", "cat"}, "Description: x\n" + rep(" more\n", d) }},
+		{"recutils-many-continuations", big, func(d int) ([]string, string) { return []string{"--irecutils", "--ojsonl", "cat"}, "a: x\n" + rep("+ more\n", d) }},
+		{"many-blank-records", big, func(d int) ([]string, string) { return []string{"--ixtab", "--ojsonl", "cat"}, rep("\n", d) + "a 1\n" + rep("\n", d) }},
+		{"gz-truncated-stream", 1000, func(d int) ([]string, string) { return []string{"--icsv", "--gzin", "--ojsonl", "cat"}, "\x1f\x8b\x08\x00\x00\x00\x00\x00\x00\x03" + rep("\x00", d) }},
+		{"nul-bytes", big, func(d int) ([]string, string) { return []string{"--icsv", "--ojsonl", "cat"}, "a\n" + rep("\x00", d) + "\n" }},
 		{"invalid-utf8-run", big, func(d int) ([]string, string) { return []string{"--icsv", "--opprint", "--barred", "cat"}, "a\n" + rep("\xff\xc0\x80", d) + "\n" }},
 		// ---- verbs fed from a ladder (cheap, and the shapes above reach them)
 		{"nest-explode-wide", 100000, func(d int) ([]string, string) { return []string{"nest", "--ivar", ";", "-f", "x"}, rep("x=a\n", d) }},
@@ -413,47 +423,88 @@ func ladders() []ladder {
 
 func ladderDepths(quick bool) []int {
 	if quick {
-		return []int{10, 100, 1000, 10000}
+		return []int{10, 30, 100, 300, 1000, 3000, 10000}
 	}
-	return []int{10, 100, 1000, 10000, 100000, 1000000}
+	return []int{10, 30, 100, 300, 1000, 3000, 10000, 30000, 100000, 300000, 1000000, 3000000, 10000000}
 }
 
+func cpuNow() time.Duration {
+	var ru syscall.Rusage
+	syscall.Getrusage(syscall.RUSAGE_SELF, &ru)
+	return time.Duration(ru.Utime.Nano() + ru.Stime.Nano())
+}
+
+// laddersWorker: one Mine index per shape; depths ascend and the ascent stops
+// (recorded, exhaustive=false) once a depth has cost more CPU or allocation
+// than the tier's budget: the next one would cost 3x..30x more. That is a
+// budget cut, never a verdict. A watchdog keeps the pool's stall detector
+// quiet while the current case has used less than 150 CPU-seconds, so that a
+// slow machine cannot turn a slow case into a "hang".
 func laddersWorker(w *vf.Worker) {
 	x := newRunner(w)
 	var idx uint64
 	ls := ladders()
 	only := envOr("VERIF_C18_LADDER", "")
+	cpuBudget, allocBudget := 400*time.Millisecond, uint64(1<<30)
+	if !w.Quick() {
+		cpuBudget, allocBudget = 4*time.Second, uint64(6<<30)
+	}
+	var caseStart atomic.Int64 // cpu at case start, ns; 0 = idle
+	go func() {
+		for {
+			time.Sleep(2 * time.Second)
+			if s := caseStart.Load(); s != 0 && cpuNow()-time.Duration(s) < 150*time.Second {
+				w.Heartbeat()
+			}
+		}
+	}()
 	for li := range ls {
 		l := &ls[li]
 		if only != "" && l.name != only {
 			continue
 		}
+		idx++
+		if !w.Mine(idx) {
+			continue
+		}
+		w.Begin(idx)
 		depths := ladderDepths(w.Quick())
 		if l.name == "yaml-alias-doubling" {
-			depths = []int{4, 8, 12, 16, 20, 24}
-			if w.Quick() {
-				depths = []int{4, 8, 12, 16}
-			}
+			depths = []int{2, 4, 6, 8, 10, 12, 14, 16, 18, 20, 22, 24, 26, 28, 30}
 		}
+		reached := 0
 		for _, d := range depths {
 			if d > l.max {
-				continue
+				break
 			}
-			idx++
-			if !w.Mine(idx) {
-				continue
-			}
-			w.Begin(idx)
 			args, stdin := l.build(d)
-			m := &mcase{Fam: "ladder", Cfg: l.name, Size: d, Desc: fmt.Sprintf("depth=%d", d), Args: args, Stdin: stdin, outCap: 512 << 20, regen: true}
+			m := &mcase{Fam: "ladder", Cfg: l.name, Size: d, Desc: fmt.Sprintf("depth=%d", d), Args: args, Stdin: stdin, outCap: 1 << 30, regen: true}
+			var ms0, ms1 runtime.MemStats
+			runtime.ReadMemStats(&ms0)
+			c0 := cpuNow()
+			caseStart.Store(int64(c0) | 1)
 			oc := x.run(m)
+			caseStart.Store(0)
+			cpu := cpuNow() - c0
+			runtime.ReadMemStats(&ms1)
+			alloc := ms1.TotalAlloc - ms0.TotalAlloc
+			args, stdin, m = nil, "", nil
+			debug.FreeOSMemory()
+			reached = d
 			w.Nontrivial(1)
 			w.AddSet("ladder-outcomes", fmt.Sprintf("%s@%d:%s", l.name, d, oc.class))
 			w.Count("cases:ladder", 1)
 			if oc.class == ocBareErr || oc.class == ocSilentNZ {
 				w.AddSet("bare-error-texts", "ladder/"+l.name+": "+short(strings.TrimSpace(firstLines(oc.stderr, 1)), 100))
 			}
+			if cpu > cpuBudget || alloc > allocBudget {
+				if d != depths[len(depths)-1] && d < l.max {
+					w.Inexhaustive(fmt.Sprintf("ladder %s stopped after depth %d (cpu %.2fs, allocated %d MiB there): deeper rungs are beyond the tier's budget", l.name, d, cpu.Seconds(), alloc>>20))
+				}
+				break
+			}
 		}
+		w.AddSet("ladder-reached", fmt.Sprintf("%s:%d", l.name, reached))
 	}
 	// the one deliberately unbounded program: user-level infinite recursion
 	if !w.Quick() {
@@ -461,7 +512,9 @@ func laddersWorker(w *vf.Worker) {
 		if w.Mine(idx) {
 			w.Begin(idx)
 			m := &mcase{Fam: "ladder", Cfg: "dsl-udf-unbounded-recursion", Size: 1, Desc: "func f(n) {return f(n+1)}", Args: []string{"-n", "put", "func f(n) { return f(n+1) } end{print f(1)}"}}
+			caseStart.Store(int64(cpuNow()) | 1)
 			oc := x.run(m)
+			caseStart.Store(0)
 			w.AddSet("ladder-outcomes", "dsl-udf-unbounded-recursion:"+oc.class)
 			w.Count("cases:ladder", 1)
 		}
